@@ -38,7 +38,7 @@ def path_effects(c, fn, p, verified):
     nf = ow.null_facts(p)
     for e in p.events:
         if e.kind == 'store':
-            if e.addr[0] in ('alloca', 'errno') or e.addr == ('errno',):
+            if e.addr[0] in ('alloca', 'errno') or e.addr == ('errno',) or sym.object_of(e.addr)[0] == 'alloca':
                 continue
             root = sym.root_of(e.addr)
             if root[0] == 'alloca' or (root[0] == 'call' and root[1] in ('calloc', 'malloc', 'strdup', 'realloc', 'cfg_addval')):
@@ -66,7 +66,7 @@ def path_effects(c, fn, p, verified):
                     continue        # unknown external: not option state
                 out.append((e, 'call %s()' % n, set(OPTION_LEVEL)))
             elif mods & STATE_FIELDS:
-                if e.args and all(a[0] == 'alloca' for a in e.args[:1]) and n in ('cfg_free_value',):
+                if e.args and all(sym.object_of(a)[0] == 'alloca' for a in e.args[:1]) and n in ('cfg_free_value',):
                     continue        # operates on a local copy
                 out.append((e, 'call %s()' % n, mods & STATE_FIELDS))
     return out
